@@ -489,6 +489,7 @@ func (vc *VC) havocLoop(li *loopInfo, h *Heap) {
 		coarse    bool
 		dyn       int // for coarse targets: dyntype of the objects that may be written (0 = unknown)
 		slotOff   int // for coarse targets with dyn: slot written (-1 = any)
+		freshOnly bool // the written objects were all allocated by this function (append/copy into a slice built here)
 	}
 	var targets []target
 	coarseAll := false
@@ -633,12 +634,13 @@ func (vc *VC) havocLoop(li *loopInfo, h *Heap) {
 							}
 						}
 					}
+					fo := dyn != 0 && addrBuiltHere(x.Addr)
 					for i, l := range ls {
 						s2 := so
 						if so >= 0 {
 							s2 = so + i
 						}
-						targets = append(targets, target{sort: l.Sort, coarse: true, dyn: dyn, slotOff: s2})
+						targets = append(targets, target{sort: l.Sort, coarse: true, dyn: dyn, slotOff: s2, freshOnly: fo})
 					}
 					continue
 				}
@@ -679,8 +681,9 @@ func (vc *VC) havocLoop(li *loopInfo, h *Heap) {
 					case "append", "copy":
 						allocs = true
 						dyn, _ := vc.backingType(cc.Args[0].Type())
+						fo := dyn != 0 && sliceBuiltHere(cc.Args[0], map[ssa.Value]bool{})
 						for i, l := range vc.L.Leaves(sliceElem(cc.Args[0].Type())) {
-							targets = append(targets, target{sort: l.Sort, coarse: true, dyn: dyn, slotOff: i})
+							targets = append(targets, target{sort: l.Sort, coarse: true, dyn: dyn, slotOff: i, freshOnly: fo})
 						}
 						continue
 					}
@@ -728,6 +731,11 @@ func (vc *VC) havocLoop(li *loopInfo, h *Heap) {
 					}
 					continue
 				}
+				// an uncontracted callee that will be inlined and only reads (getters, small pure helpers)
+				if callee := cc.StaticCallee(); callee != nil && !cc.IsInvoke() && vc.canInline(callee) && vc.readsOnly(callee, 0) {
+					allocs = true
+					continue
+				}
 				coarseAll = true
 			case *ssa.Go, *ssa.Send, *ssa.Select:
 				coarseAll = true
@@ -743,12 +751,16 @@ func (vc *VC) havocLoop(li *loopInfo, h *Heap) {
 	type dynSlot struct{ dyn, slot int }
 	coarseDyn := map[Sort][]dynSlot{}
 	coarseFull := map[Sort]bool{}
+	notFreshOnly := map[Sort]bool{} // some typed target of the sort may write an object that existed at function entry
 	for _, t := range targets {
 		if t.coarse {
 			if t.dyn == 0 {
 				coarseFull[t.sort] = true
 			} else {
 				coarseDyn[t.sort] = append(coarseDyn[t.sort], dynSlot{t.dyn, t.slotOff})
+				if !t.freshOnly {
+					notFreshOnly[t.sort] = true
+				}
 			}
 		}
 	}
@@ -775,6 +787,11 @@ func (vc *VC) havocLoop(li *loopInfo, h *Heap) {
 			}
 		}
 		vc.assume(fmt.Sprintf("(forall ((o Int)) (! (=> (not %s) (= (select %s o) (select %s o))) :pattern ((select %s o))))", or(isT...), nh, old, nh))
+		if !notFreshOnly[s] {
+			// every write of this kind goes into a slice this function built itself (make / nil + append):
+			// objects that existed when the function was entered keep their contents
+			vc.assume(fmt.Sprintf("(forall ((o Int)) (! (=> (<= o %s) (= (select %s o) (select %s o))) :pattern ((select %s o))))", vc.heap0.Alloc, nh, old, nh))
+		}
 		var hit []string
 		anySlot := false
 		for _, d := range ds {
@@ -851,6 +868,59 @@ func (vc *VC) havocLoop(li *loopInfo, h *Heap) {
 }
 
 func isInstr(v ssa.Value) bool { _, ok := v.(ssa.Instruction); return ok }
+
+// addrBuiltHere: the address lies in an object this function allocated (a local variable, a composite
+// literal, the hidden array of a variadic call) or in the backing array of a slice it built.
+func addrBuiltHere(v ssa.Value) bool {
+	for d := 0; d < 8; d++ {
+		switch x := v.(type) {
+		case *ssa.Alloc:
+			return true
+		case *ssa.FieldAddr:
+			v = x.X
+		case *ssa.IndexAddr:
+			if _, isSl := x.X.Type().Underlying().(*types.Slice); isSl {
+				return sliceBuiltHere(x.X, map[ssa.Value]bool{})
+			}
+			v = x.X
+		default:
+			return false
+		}
+	}
+	return false
+}
+
+// sliceBuiltHere: the slice value is nil, the result of make, or an append / reslice / phi of such
+// values only - its backing array (if any) was allocated by this very function.
+func sliceBuiltHere(v ssa.Value, seen map[ssa.Value]bool) bool {
+	if seen[v] {
+		return true
+	}
+	seen[v] = true
+	switch x := v.(type) {
+	case *ssa.MakeSlice:
+		return true
+	case *ssa.Const:
+		return x.IsNil()
+	case *ssa.Phi:
+		for _, e := range x.Edges {
+			if !sliceBuiltHere(e, seen) {
+				return false
+			}
+		}
+		return true
+	case *ssa.Slice:
+		if _, isSl := x.X.Type().Underlying().(*types.Slice); isSl {
+			return sliceBuiltHere(x.X, seen)
+		}
+		return false
+	case *ssa.Call:
+		if bi, ok := x.Call.Value.(*ssa.Builtin); ok && bi.Name() == "append" {
+			return sliceBuiltHere(x.Call.Args[0], seen)
+		}
+	}
+	return false
+}
 
 func sliceElem(t types.Type) types.Type {
 	switch u := t.Underlying().(type) {
@@ -932,6 +1002,29 @@ func (vc *VC) postObligations() error {
 		pos := vc.pos(r.blk.Instrs[len(r.blk.Instrs)-1].Pos())
 		for i, c := range ct.Ensures {
 			vc.goalClause(ev, c, fmt.Sprintf("%s/post#%d@b%d", vc.key, i+1, r.blk.Index), "post", r.guard, pos)
+		}
+		// at-return assert[label] e: as ensures, with the function's locals in scope (their values at
+		// this return). Where a named local does not exist yet, `A ==> B` demands !A.
+		for i, c := range ct.AtReturn {
+			name := fmt.Sprintf("%s/at-return#%d@b%d", vc.key, i+1, r.blk.Index)
+			ev.allowLocals++
+			ev.probing++
+			_, perr := ev.boolExpr(c.E, true)
+			ev.probing--
+			ev.skolems, ev.hyps = nil, nil
+			if perr != nil && strings.Contains(perr.Error(), "unknown name") {
+				imp, ok := c.E.(*EBin)
+				if !ok || imp.Op != "==>" {
+					ev.allowLocals--
+					return fmt.Errorf("%s: at-return %s: %v on the return at %s (only `A ==> B` clauses may name locals that do not exist on every return)", vc.key, c.Src, perr, pos)
+				}
+				neg := Clause{Label: c.Label, Line: c.Line, E: &EUnary{Op: "!", X: imp.X},
+					Src: "!(" + imp.X.String() + ")  -- a local named by `" + c.Src + "` does not exist at this return: the premise must be false"}
+				vc.goalClause(ev, neg, name, "post", r.guard, pos)
+			} else {
+				vc.goalClause(ev, c, name, "post", r.guard, pos)
+			}
+			ev.allowLocals--
 		}
 		for i, c := range ct.LockBal {
 			evOld := vc.newEval(vc.fn, vc.heap0, vc.heap0, nil)
